@@ -57,6 +57,7 @@ func (p *pkg) pkgName() string {
 func (p *pkg) resolved() *types.Info {
 	if p.info == nil {
 		p.info = p.typeInfo()
+		aliasTypes = append(aliasTypes, p.info)
 	}
 	return p.info
 }
@@ -220,8 +221,131 @@ func (p *pkg) anyFunc(recv, name string) *ast.FuncDecl {
 	return nil
 }
 
+// curAlias: local names that merely abbreviate a field path (`prev := s.mailboxConn`, never
+// assigned again) inside the function or expanded helper being described; expressions are
+// printed with the path, so that hoisting a repeated expression into a local leaves the facts
+// unchanged. Set by withAliases around every walk.
+var curAlias map[string]string
+
 func exprStr(fset *token.FileSet, e ast.Expr) string {
-	return types.ExprString(e)
+	s := types.ExprString(e)
+	for name, path := range curAlias {
+		s = substIdent(s, name, path)
+	}
+	return s
+}
+
+func isIdentByte(c byte) bool {
+	return c == '_' || c >= '0' && c <= '9' || c >= 'a' && c <= 'z' || c >= 'A' && c <= 'Z'
+}
+
+// substIdent replaces the free-standing identifier `name` (not a field selector, not part of a
+// longer identifier) in s.
+func substIdent(s, name, by string) string {
+	var b strings.Builder
+	for i := 0; i < len(s); {
+		if strings.HasPrefix(s[i:], name) &&
+			(i == 0 || !(isIdentByte(s[i-1]) || s[i-1] == '.')) &&
+			(i+len(name) == len(s) || !isIdentByte(s[i+len(name)])) {
+			b.WriteString(by)
+			i += len(name)
+			continue
+		}
+		b.WriteByte(s[i])
+		i++
+	}
+	return b.String()
+}
+
+// aliasesOf finds `id := a.b.c` definitions in body whose left side is never written again.
+func aliasesOf(body ast.Node) map[string]string {
+	res := map[string]string{}
+	if body == nil {
+		return res
+	}
+	writes := map[string]int{}
+	ast.Inspect(body, func(n ast.Node) bool {
+		switch x := n.(type) {
+		case *ast.AssignStmt:
+			for _, l := range x.Lhs {
+				if id, ok := l.(*ast.Ident); ok {
+					writes[id.Name]++
+				}
+			}
+			if x.Tok == token.DEFINE && len(x.Lhs) == 1 && len(x.Rhs) == 1 {
+				if id, ok := x.Lhs[0].(*ast.Ident); ok && isFieldPath(x.Rhs[0]) && refLike(x.Rhs[0]) {
+					res[id.Name] = types.ExprString(x.Rhs[0])
+				}
+			}
+		case *ast.IncDecStmt:
+			if id, ok := x.X.(*ast.Ident); ok {
+				writes[id.Name]++
+			}
+		case *ast.UnaryExpr:
+			if id, ok := x.X.(*ast.Ident); ok && x.Op == token.AND {
+				writes[id.Name]++
+			}
+		case *ast.RangeStmt:
+			for _, e := range []ast.Expr{x.Key, x.Value} {
+				if id, ok := e.(*ast.Ident); ok {
+					writes[id.Name]++
+				}
+			}
+		}
+		return true
+	})
+	for name := range res {
+		if writes[name] != 1 {
+			delete(res, name)
+		}
+	}
+	return res
+}
+
+// aliasTypes: the type tables of the packages loaded so far (an alias must be reference-like:
+// a copy of an array, struct or number is a snapshot, not another name for the field).
+var aliasTypes []*types.Info
+
+func refLike(e ast.Expr) bool {
+	for _, info := range aliasTypes {
+		if tv, ok := info.Types[e]; ok && tv.Type != nil {
+			switch tv.Type.Underlying().(type) {
+			case *types.Pointer, *types.Interface, *types.Chan, *types.Map, *types.Signature:
+				return true
+			}
+			return false
+		}
+	}
+	return false
+}
+
+func isFieldPath(e ast.Expr) bool {
+	sel, ok := e.(*ast.SelectorExpr)
+	if !ok {
+		return false
+	}
+	switch x := sel.X.(type) {
+	case *ast.Ident:
+		return true
+	case *ast.SelectorExpr:
+		return isFieldPath(x)
+	}
+	return false
+}
+
+// withAliases runs f with the aliases of body added to the current ones.
+func withAliases(body ast.Node, f func()) {
+	old := curAlias
+	merged := map[string]string{}
+	for k, v := range old {
+		merged[k] = v
+	}
+	for k, v := range aliasesOf(body) {
+		merged[k] = v
+	}
+	curAlias = merged
+	defer func() { curAlias = old }()
+	f()
 }
 
 // constants evaluates package-level untyped/typed constant declarations with
@@ -478,7 +602,7 @@ func selectsNode(p *pkg, fd *ast.FuncDecl, root ast.Node) []selInfo {
 				// selects inside a helper that is not in the vocabulary belong to this function
 				if body := p.expansion(fd, closures, s, stack); body != nil {
 					stack[body] = true
-					walk(body, depth)
+					withAliases(body, func() { walk(body, depth) })
 					delete(stack, body)
 				}
 			case *ast.FuncLit:
@@ -512,7 +636,7 @@ func selectsNode(p *pkg, fd *ast.FuncDecl, root ast.Node) []selInfo {
 			return true
 		})
 	}
-	walk(root, 0)
+	withAliases(root, func() { walk(root, 0) })
 	return res
 }
 
@@ -571,7 +695,7 @@ func calls(p *pkg, fd *ast.FuncDecl) []string {
 		if ce, ok := n.(*ast.CallExpr); ok {
 			if body := p.expansion(fd, closures, ce, stack); body != nil {
 				stack[body] = true
-				ast.Inspect(body, visit)
+				withAliases(body, func() { ast.Inspect(body, visit) })
 				delete(stack, body)
 				return true
 			}
@@ -581,7 +705,7 @@ func calls(p *pkg, fd *ast.FuncDecl) []string {
 		}
 		return true
 	}
-	ast.Inspect(fd.Body, visit)
+	withAliases(fd.Body, func() { ast.Inspect(fd.Body, visit) })
 	return res
 }
 
@@ -628,7 +752,7 @@ func skeleton(p *pkg, fd *ast.FuncDecl) []string {
 			if body := p.expansion(fd, closures, x, stack); body != nil {
 				// a helper that is not in the vocabulary: what it does is part of this function
 				stack[body] = true
-				ast.Inspect(body, visit)
+				withAliases(body, func() { ast.Inspect(body, visit) })
 				delete(stack, body)
 				return true
 			}
@@ -688,7 +812,7 @@ func skeleton(p *pkg, fd *ast.FuncDecl) []string {
 		}
 		return true
 	}
-	ast.Inspect(fd.Body, visit)
+	withAliases(fd.Body, func() { ast.Inspect(fd.Body, visit) })
 	return res
 }
 
@@ -767,7 +891,7 @@ func events(p *pkg, fd *ast.FuncDecl) []string {
 		case *ast.CallExpr:
 			if body := p.expansion(fd, closures, x, stack); body != nil {
 				stack[body] = true
-				ast.Inspect(body, visit)
+				withAliases(body, func() { ast.Inspect(body, visit) })
 				delete(stack, body)
 				return true
 			}
@@ -777,7 +901,7 @@ func events(p *pkg, fd *ast.FuncDecl) []string {
 		}
 		return true
 	}
-	ast.Inspect(fd.Body, visit)
+	withAliases(fd.Body, func() { ast.Inspect(fd.Body, visit) })
 	return res
 }
 
@@ -817,21 +941,59 @@ func guardedCalls(p *pkg, fd *ast.FuncDecl, callee, cond string) []bool {
 	skipLit := p.unknownClosureLits(fd)
 	stack := map[ast.Node]bool{fd.Body: true}
 	var walk func(n ast.Node, guarded bool)
+	var block func(x *ast.BlockStmt, guarded bool)
+	block = func(x *ast.BlockStmt, guarded bool) {
+		// `if <not cond> { ...; return }` guards the rest of the block as `if cond {...}` would
+		g := guarded
+		for _, st := range x.List {
+			walk(st, g)
+			if is, ok := st.(*ast.IfStmt); ok && is.Else == nil && len(is.Body.List) > 0 &&
+				exprStr(p.fset, is.Cond) == negCond(cond) {
+				if _, ret := is.Body.List[len(is.Body.List)-1].(*ast.ReturnStmt); ret {
+					g = true
+				}
+			}
+		}
+	}
 	walk = func(n ast.Node, guarded bool) {
+		if b, ok := n.(*ast.BlockStmt); ok {
+			block(b, guarded)
+			return
+		}
+		if is, ok := n.(*ast.IfStmt); ok {
+			g := guarded || exprStr(p.fset, is.Cond) == cond
+			if is.Init != nil {
+				walk(is.Init, guarded)
+			}
+			walk(is.Cond, guarded)
+			walk(is.Body, g)
+			if is.Else != nil {
+				walk(is.Else, guarded)
+			}
+			return
+		}
 		ast.Inspect(n, func(m ast.Node) bool {
 			if m == n {
-				return true
+				if ce, ok := m.(*ast.CallExpr); ok {
+					_ = ce // a call that is itself the root is handled below
+				} else {
+					return true
+				}
 			}
 			switch x := m.(type) {
 			case *ast.FuncLit:
 				if skipLit[x] {
 					return false
 				}
+			case *ast.BlockStmt:
+				block(x, guarded)
+				return false
 			case *ast.IfStmt:
 				g := guarded || exprStr(p.fset, x.Cond) == cond
 				if x.Init != nil {
 					walk(x.Init, guarded)
 				}
+				walk(x.Cond, guarded)
 				walk(x.Body, g)
 				if x.Else != nil {
 					walk(x.Else, guarded)
@@ -842,15 +1004,28 @@ func guardedCalls(p *pkg, fd *ast.FuncDecl, callee, cond string) []bool {
 					res = append(res, guarded)
 				} else if body := p.expansion(fd, closures, x, stack); body != nil {
 					stack[body] = true
-					walk(body, guarded)
+					withAliases(body, func() { walk(body, guarded) })
 					delete(stack, body)
 				}
 			}
 			return true
 		})
 	}
-	walk(fd.Body, false)
+	withAliases(fd.Body, func() { walk(fd.Body, false) })
 	return res
+}
+
+// negCond: "a != b" <-> "a == b", "!x" <-> "x".
+func negCond(c string) string {
+	switch {
+	case strings.Contains(c, " != "):
+		return strings.Replace(c, " != ", " == ", 1)
+	case strings.Contains(c, " == "):
+		return strings.Replace(c, " == ", " != ", 1)
+	case strings.HasPrefix(c, "!"):
+		return c[1:]
+	}
+	return "!" + c
 }
 
 // assignedFrom lists the left-hand sides of assignments in fd whose right-hand
@@ -1095,6 +1270,8 @@ func main() {
 	}
 	g := load(filepath.Join(repo, "gbn"))
 	m := load(filepath.Join(repo, "mailbox"))
+	g.resolved()
+	m.resolved()
 	gc := g.constants()
 	mc := m.constants()
 
